@@ -72,6 +72,17 @@ class Note(NamedTuple):
         # bool(...) wrapper to satisfy mypy
         return bool(self._comparable() < other._comparable())
 
+    # NamedTuple inherits <=, > and >= from tuple, so total_ordering never
+    # replaces them; define them explicitly to keep all operators consistent
+    def __le__(self, other) -> bool:
+        return bool(self._comparable() <= other._comparable())
+
+    def __gt__(self, other) -> bool:
+        return bool(self._comparable() > other._comparable())
+
+    def __ge__(self, other) -> bool:
+        return bool(self._comparable() >= other._comparable())
+
     def __str__(self):
         """
         Returns the note string as it would appear in note data.
